@@ -218,6 +218,9 @@ class Kern:
             self.events.append((nm, tuple(args)))
             if nm in self.call_hooks:
                 return self.call_hooks[nm](tuple(args))
+            if isinstance(nm, str) and nm.startswith("__redu_"):
+                # a generated helper this evaluator was not given: its result would be invented (fail closed)
+                raise KernUnsupported(f"call of helper {nm} whose body is not available")
             return 0
         if t == "mcall":
             args = [self.ev(a) for a in e[3]]
